@@ -27,6 +27,7 @@ import (
 	"github.com/mutagen-io/mutagen/pkg/synchronization/endpoint/remote"
 	"github.com/mutagen-io/mutagen/pkg/synchronization/rsync"
 	urlpkg "github.com/mutagen-io/mutagen/pkg/url"
+	"github.com/mutagen-io/mutagen/pkg/verif"
 
 	"verif/simkit"
 )
@@ -96,7 +97,7 @@ var stackLabels = []simkit.StackLabel{
 }
 
 func (h *harness) setupDisk() error {
-	base, err := os.MkdirTemp(scratchParent(), "verif-syncsim-")
+	base, err := simkit.MkdirTemp(scratchParent(), "verif-syncsim-")
 	if err != nil {
 		return err
 	}
@@ -155,7 +156,23 @@ func (h *harness) setupDisk() error {
 	}
 	h.disk = d
 	filesystem.VerifSyscallHook = d.hook
+	verif.OrderHook = seedOrder(int64(h.plan.Seed))
 	return nil
+}
+
+// seedOrder arranges names in an order that is a pure function of the run seed
+// and the names (see callOrder): it stands in for the map order the runtime
+// would pick when mutagen creates the contents of a directory.
+func seedOrder(salt int64) func(names []string) {
+	return func(names []string) {
+		sort.SliceStable(names, func(a, b int) bool {
+			ha, hb := stableHash(salt, "dir-order", names[a]), stableHash(salt, "dir-order", names[b])
+			if ha != hb {
+				return ha < hb
+			}
+			return names[a] < names[b]
+		})
+	}
 }
 
 // scratchParent is where per-run scratch trees go: the orchestrator's job
@@ -176,6 +193,7 @@ func setHook(f func(op string, dirfd int, path string, dirfd2 int, path2 string)
 
 func (h *harness) teardownDisk() {
 	filesystem.VerifSyscallHook = nil
+	verif.OrderHook = nil
 	if h.disk != nil {
 		if h.disk.inotify >= 0 {
 			unix.Close(h.disk.inotify)
@@ -252,7 +270,9 @@ func maskTemp(rel string) string {
 	return rel
 }
 
-var randomDigits = regexp.MustCompile(`[0-9]{4,}`)
+// randomDigits matches what the runtime draws at random in file names: the
+// numeric suffixes of temporaries and session identifiers.
+var randomDigits = regexp.MustCompile(`sync_[0-9A-Za-z]{20,}|[0-9]{4,}`)
 
 // stableHash mixes stable identifiers only (never pointers, descriptors or
 // arrival order), for choices that must not depend on the order in which the
@@ -448,7 +468,7 @@ func (d *diskState) crashBefore(op, where, target string) {
 		rate, _ := strconv.Atoi(strings.TrimPrefix(f.S, "r"))
 		k := s.Occur("crash_before@" + where + "@" + op + "@" + target)
 		if rate > 0 && stableHash(int64(f.Nth), where, op, target, strconv.Itoa(k))%uint64(rate) == 0 {
-			s.Logf("fault", "the daemon dies just before %s %q (%s)", op, target, where)
+			s.Logf("fault", "the daemon dies just before %s %q (%s)", op, target, where) // (target is masked above)
 			s.Count("fault.crash_before_syscall", 1)
 			s.Crash()
 			s.ParkForever()
@@ -486,7 +506,7 @@ func (d *diskState) crashAfterRename(op string, dirfd int, path string, dirfd2 i
 		if err != nil {
 			return // it would have failed: let the real call report that
 		}
-		s.Logf("fault", "the daemon dies right after %s -> %q (%s) took effect", op, target, where)
+		s.Logf("fault", "the daemon dies right after %s -> %q (%s) took effect", op, randomDigits.ReplaceAllString(target, "*"), where)
 		s.Count("fault.crash_after_rename", 1)
 		s.Crash()
 		s.ParkForever()
@@ -1133,7 +1153,21 @@ func (h *harness) connectDisk(logger *logging.Logger, url *urlpkg.URL, session s
 func (e *diskEndpoint) Poll(ctx context.Context) error {
 	e.h.enter(e.side, "poll")
 	defer e.h.leave(e.side)
+	if ctx.Err() != nil {
+		// Cancelled before the call got under way (the controller was already
+		// asked to flush): the endpoint's select between "cancelled" and a
+		// pending notification would be decided by the runtime's random
+		// number generator, which no seed reproduces. Of the two legal
+		// outcomes the simulation always takes "cancelled, notification kept".
+		e.h.s.Count("probe.poll_cancelled_before_start", 1)
+		return nil
+	}
 	err := e.inner.Poll(ctx)
+	// Both endpoints' polls often end at the same simulated instant (the same
+	// timer tick, or one by a change and the other by the cancellation that
+	// follows): the scheduler, not the runtime, decides which return the
+	// controller sees first.
+	e.h.s.Gate("ctl."+e.side, "poll-return")
 	if ctx.Err() == nil {
 		e.h.s.Logf("ctl."+e.side, "poll -> %v", err)
 	}
@@ -1255,6 +1289,27 @@ func snapshotMatches(a, b *core.Entry) bool {
 	return true
 }
 
+// callOrder is the order in which the changes of one Transition call are
+// handed to the real endpoint: a pure function of the run seed and the paths
+// (the results are mapped back). Reconciliation emits its change lists in the
+// order of its walk, which nothing may depend on; staging paths keep the
+// order the controller chose (the endpoint must answer with a subsequence).
+func (e *diskEndpoint) callOrder(paths []string) []int {
+	idx := make([]int, len(paths))
+	for i := range idx {
+		idx[i] = i
+	}
+	salt := int64(e.h.plan.Seed)
+	sort.SliceStable(idx, func(a, b int) bool {
+		ha, hb := stableHash(salt, "order", paths[idx[a]]), stableHash(salt, "order", paths[idx[b]])
+		if ha != hb {
+			return ha < hb
+		}
+		return paths[idx[a]] < paths[idx[b]]
+	})
+	return idx
+}
+
 func (e *diskEndpoint) Stage(paths []string, digests [][]byte) ([]string, []*rsync.Signature, rsync.Receiver, error) {
 	h := e.h
 	h.enter(e.side, "stage")
@@ -1277,6 +1332,30 @@ func (e *diskEndpoint) Supply(paths []string, signatures []*rsync.Signature, rec
 }
 
 func (e *diskEndpoint) Transition(ctx context.Context, transitions []*core.Change) ([]*core.Entry, []*core.Problem, bool, error) {
+	if len(transitions) < 2 {
+		return e.transitionInOrder(ctx, transitions)
+	}
+	paths := make([]string, len(transitions))
+	for i, c := range transitions {
+		paths[i] = c.Path
+	}
+	order := e.callOrder(paths)
+	permuted := make([]*core.Change, len(transitions))
+	for i, k := range order {
+		permuted[i] = transitions[k]
+	}
+	results, problems, missing, err := e.transitionInOrder(ctx, permuted)
+	if len(results) == len(transitions) {
+		back := make([]*core.Entry, len(results))
+		for i, k := range order {
+			back[k] = results[i]
+		}
+		results = back
+	}
+	return results, problems, missing, err
+}
+
+func (e *diskEndpoint) transitionInOrder(ctx context.Context, transitions []*core.Change) ([]*core.Entry, []*core.Problem, bool, error) {
 	h, d := e.h, e.h.disk
 	invoked := h.enter(e.side, "transition")
 	h.mu.Lock()
